@@ -120,6 +120,13 @@ inductive Act where
   | saveWal (id : Nat)
   | saveDoc (id : Nat)
   | retain (ids : List Nat)
+  /-- `CheckpointList.Save` without a checkpoint task: the second half of `UpdateRetainedCheckpoints` -/
+  | saveList
+  /-- the loop at the end of `Save`: delete the WAL file of one checkpoint pending removal -/
+  | destroy
+  /-- a table file appears under a number not yet committed: a flush or compaction task wrote its output and has not
+  committed (or never will: crash, abandoned instance) -/
+  | orphan (id : Nat) (run : Run)
   | crash
   | open (id : Nat) (rots : List Nat)
 deriving Repr
@@ -144,13 +151,19 @@ def maxId : List Nat → Nat
 checkpoint that is still being completed or published) -/
 def keeps (ids : List Nat) (id : Nat) : Bool := ids.contains id || decide (maxId ids < id)
 
-/-- `CheckpointList.Save` (one critical section of the list mutex): write the document, then delete the WAL files of the checkpoints pending removal -/
-def saveList (s : State) : State :=
-  { s with
-    files := { s.files with
-      doc := some (s.ckpts.map Ckpt.doc),
-      wals := s.files.wals.filter (fun p => !(s.pending.map (·.walId)).contains p.1) },
-    pending := [] }
+/-- `CheckpointList.Save`, first storage operation: the `checkpoints` document is overwritten with the current list.
+(The whole of `Save` is one critical section of the list mutex — fact `c08SaveUnderListLock` — so no other list
+operation interleaves; a crash can still fall between its storage operations, which are separate model steps.) -/
+def writeDoc (s : State) : State :=
+  { s with files := { s.files with doc := some (s.ckpts.map Ckpt.doc) } }
+
+/-- `Save`, following storage operations: the WAL file of the first checkpoint pending removal is deleted -/
+def destroyOne (s : State) : Option State :=
+  match s.pending with
+  | [] => none
+  | p :: ps =>
+    some { s with files := { s.files with wals := s.files.wals.filter (fun q => !([p.walId]).contains q.1) },
+                  pending := ps }
 
 def loadTables (tables : List (Nat × Run)) : List Nat → Option (List Tbl)
   | [] => some []
@@ -254,12 +267,18 @@ def step (s : State) : Act → Option State
       match s.tasks.find? (fun t => t.id == id && t.walSaved) with
       | none => none
       | some _ =>
-        let s1 := saveList s
+        let s1 := writeDoc s
         some { s1 with tasks := s1.tasks.filter (fun t => !(t.id == id)), done := id :: s1.done }
     | .retain ids =>
+      -- `RetainOnly` (its own critical section of the list mutex; the `Save` that follows is `.saveList`)
       let kept := s.ckpts.filter (fun c => keeps ids c.id)
       if kept.isEmpty then none else
-      some (saveList { s with ckpts := kept, pending := s.pending ++ s.ckpts.filter (fun c => !keeps ids c.id) })
+      some { s with ckpts := kept, pending := s.pending ++ s.ckpts.filter (fun c => !keeps ids c.id) }
+    | .saveList => some (writeDoc s)
+    | .destroy => destroyOne s
+    | .orphan id run =>
+      if id < s.db.nextId then none else
+      some { s with files := { s.files with tables := (id, run) :: s.files.tables } }
     | .crash => some { s with alive := false }
     | .open _ _ => none
 
@@ -279,6 +298,13 @@ structure SpecSt where
   m : Spec := []
   /-- the expected map at each `Checkpoint` call, newest call first -/
   saved : List (Nat × Spec) := []
+  /-- the handles the user of the database holds and has not given up: a handle is added when `Checkpoint` returns it,
+  removed only by a retention update that does not keep its id, by a new `Checkpoint` call with the same id, and by a
+  restore from an older checkpoint (which abandons the later ones). It survives restarts of the database. -/
+  handles : List Nat := []
+  /-- handles that were older than a checkpoint the database has been reopened from since (D50: the reopened instance
+  loads only that one entry of the `checkpoints` document and its next save drops the others) -/
+  lost : List Nat := []
 
 def specAt (saved : List (Nat × Spec)) (id : Nat) : Spec := ((saved.find? (fun p => p.1 == id)).map (·.2)).getD []
 
@@ -287,8 +313,13 @@ def retainedDone (s : State) (id : Nat) : Bool := s.done.contains id && s.ckpts.
 
 def stepSpec (s : State) (sp : SpecSt) : Act → SpecSt
   | .write del k v _ => { sp with m := specStep sp.m s.db.seq (if del then .del k else .put k v) }
-  | .checkpoint id => { sp with saved := (id, sp.m) :: sp.saved }
-  | .open id _ => { sp with m := specAt sp.saved id }
+  | .checkpoint id => { sp with saved := (id, sp.m) :: sp.saved,
+                                 handles := sp.handles.filter (fun h => h != id), lost := sp.lost.filter (fun h => h != id) }
+  | .saveDoc id => { sp with handles := if s.ckpts.any (fun c => c.id == id) then id :: sp.handles else sp.handles }
+  | .retain ids => { sp with handles := sp.handles.filter (keeps ids), lost := sp.lost.filter (keeps ids) }
+  | .open id _ => { sp with m := specAt sp.saved id,
+                             handles := sp.handles.filter (fun h => decide (h ≤ id)),
+                             lost := (sp.lost ++ sp.handles.filter (fun h => decide (h < id))).filter (fun h => decide (h ≤ id)) }
   | _ => sp
 
 /-- an instance is only ever opened from a completed handle of a checkpoint that is still retained (what a job does) -/
